@@ -670,11 +670,13 @@ class Check:
                               "fixed": list(fixed), "alpha": alpha, "preamble": pname, "size": len(alpha) ** (depth - nfixed), **fams[S]})
 
         if tier == "quick":
-            for S in fams:
-                exh(S, "none", FULL, "", 3, 1)
-                exh(S, "two", FULL, "", 3, 1)
-                exh(S, "three", FULL, "", 2, 0)
-            exh("admin", "two", REDUCED, "r", 4, 1)
+            exh("admin", "none", FULL, "", 3, 1)
+            exh("admin", "two", FULL, "", 3, 1)
+            exh("u1", "none", WIDE, "w", 3, 1)
+            exh("u1", "two", WIDE, "w", 3, 1)
+            exh("admin", "three", FULL, "", 2, 0)
+            exh("u1", "three", FULL, "", 2, 0)
+            exh("admin", "two", REDUCED9, "r", 4, 1)
             exh("u1", "none", LIMIT6, "l", 5, 1)
             nrand, per = 32, 40
         else:
